@@ -259,6 +259,17 @@ class ExcFlow(object):
                             isinstance(x, ast.Constant)
                             for x in e.comparators[0].elts):
                         return []
+                    # isinstance(x, bool/int/float): a number, not text
+                    if pol and isinstance(e, ast.Call) and call_name(e) == \
+                            'isinstance' and len(e.args) == 2 and \
+                            isinstance(e.args[0], ast.Name) and \
+                            e.args[0].id == a.id and all(
+                            (dotted(t) or '').split('.')[-1] in (
+                                'bool', 'int', 'float', 'long', 'Decimal',
+                                'D', 'integer_types')
+                            for t in (e.args[1].elts if isinstance(
+                                e.args[1], ast.Tuple) else [e.args[1]])):
+                        return []
                 defs = [n for n in walk_no_defs(f.node)
                         if isinstance(n, ast.Assign) and any(
                             isinstance(t, ast.Name) and t.id == a.id
